@@ -2,6 +2,7 @@
 //! usage: implrun <KIND>   (cases on stdin, one s-expression per line; one answer line each)
 mod c12;
 mod c13;
+mod c17;
 mod dump_gen;
 mod load;
 mod modops;
@@ -26,6 +27,7 @@ fn main() {
         let res = match kind.as_str() {
             "C12" => c12::run(&case),
             "C13" => c13::run(&case),
+            "C17" => c17::run(&case),
             "C14" | "C15" => modops::run(&case),
             "LOAD" => load::run_load(&case),
             "TOKENS" => load::run_tokens(&case),
